@@ -312,7 +312,8 @@ Definition wr_write (w : rwriter) (data : bytes) : rwriter * res unit :=
             let nxt := w_file w1 + 1 in
             let files' := insert_sorted nxt (w_files w1) in
             match create_file (w_ctx w1) nxt with
-            | (c, Err e) => (mkWr c files' (w_file w1) (w_off w1) (w_pending w1), Err e)
+            (* fix "untrack a file that could not be created": the tracker is left as it was *)
+            | (c, Err e) => (mkWr c (w_files w1) (w_file w1) (w_off w1) (w_pending w1), Err e)
             | (c, Ok _) =>
                 (bw_write_all (mkWr c files' nxt 0 []) data, Ok tt)
             end
